@@ -791,9 +791,59 @@ func c15Compare(o *core.Obs, label, where string, got []c15Call, want []c15Draw)
 	return true
 }
 
+// c15MultiPath: DrawPath(x, y, p1, p2) draws each path with the style current at the call: what is decided
+// for p1 (its stroke is left out when the whole of p1 lies in a gap of the dash pattern) must not reach
+// p2. The long path is drawn once after a short one and once alone; the renderer must receive it with
+// the same style both times.
+func c15MultiPath(c *c15Case, o *core.Obs) {
+	r := caseRng(c, "C15multi")
+	dash, gap := r.Range(2, 8), r.Range(3, 9)
+	short := &canvas.Path{}
+	short.MoveTo(0, 0)
+	short.LineTo(r.Range(0.5, 0.9)*gap, 0) // shorter than the gap the pattern starts in
+	long := canvas.Rectangle(r.Range(30, 60), r.Range(20, 40))
+	draw := func(both bool) (canvas.Style, bool) {
+		rec := &c15Recorder{w: c.W, h: c.H}
+		ctx := canvas.NewContext(rec)
+		ctx.SetFillColor(canvas.Transparent)
+		ctx.SetStrokeColor(canvas.Black)
+		ctx.SetStrokeWidth(1)
+		ctx.SetDashes(dash, dash, gap) // offset = first dash: the pattern starts at the beginning of a gap
+		if both {
+			ctx.DrawPath(5, 5, short, long)
+		} else {
+			ctx.DrawPath(5, 5, long)
+		}
+		for _, cl := range rec.calls {
+			if cl.Kind == "path" && bitsEqual(cl.Data, long.Data()) {
+				return cl.Style, true
+			}
+		}
+		return canvas.Style{}, false
+	}
+	var alone, after canvas.Style
+	var ok1, ok2 bool
+	if o.Guard("Context.DrawPath", func() { alone, ok1 = draw(false); after, ok2 = draw(true) }) {
+		o.Fail("panic", "DrawPath with two paths panicked at %s: %s", o.PanicSite, o.PanicVal)
+		return
+	}
+	o.Decided(1)
+	if !ok1 || !ok2 {
+		o.Fail("multi-path", "DrawPath(short, long) with dashes %g,%g offset %g: the long path reached the renderer alone=%v, after the short one=%v", dash, gap, dash, ok1, ok2)
+		return
+	}
+	if alone.HasStroke() != after.HasStroke() || !bitsEqual(alone.Dashes, after.Dashes) || alone.DashOffset != after.DashOffset {
+		o.Fail("multi-path", "DrawPath(short, long) with dashes %g,%g offset %g: the long path is drawn with stroke=%v dashes %v after the short path (length %.3g, inside the first gap), with stroke=%v dashes %v alone", dash, gap, dash, after.HasStroke(), after.Dashes, short.Length(), alone.HasStroke(), alone.Dashes)
+	}
+}
+
 func c15Check(ci any, o *core.Obs) {
 	c := ci.(*c15Case)
 	checkGlobals(o)
+	c15MultiPath(c, o)
+	if o.Failed() {
+		return
+	}
 	// (a) Context over the recording renderer
 	rec := &c15Recorder{w: c.W, h: c.H}
 	if _, ok := c15Run(c, rec, rec, o, "direct"); !ok {
